@@ -12,6 +12,10 @@ func init() {
 	propBuilders["C12"] = buildC12
 	propBuilders["C16"] = buildC16
 	propBuilders["C11"] = buildC11
+	propBuilders["C02"] = buildC02
+	propBuilders["C05"] = buildC05
+	propBuilders["C07"] = buildC07
+	propBuilders["C10"] = buildC10
 	registerHarness("C15", "pkg/visitor/printer", "c15_printer_test.go", "TestVCReplayC15")
 	registerHarness("C12", "pkg/visitor/traverser", "c12_traverser_test.go", "TestVCReplayC12")
 	registerHarness("C16", "pkg/visitor/dumper", "c16_dumper_test.go", "TestVCReplayC16")
@@ -92,7 +96,7 @@ func buildC12(c *CheckCtx) {
 	c.checkTraverser(kinds, order)
 	c.CoverageExtra["kinds"] = len(kinds)
 	c.assume("the inner visitor (t.v) is caller code; 'presented to the visitor' means n.Accept(t.v) is called")
-	c.assume("no node object is reachable along two paths of a parsed tree: E-GRAM linear obligations (see C02/C07 evidence when built); not part of this check yet")
+	c.addGram(gramWant{Shape: true, Linear: true}) // no node or token object occupies two slots of a parsed tree
 }
 
 func buildC16(c *CheckCtx) {
@@ -100,4 +104,47 @@ func buildC16(c *CheckCtx) {
 	kinds := astKinds(c.W)
 	c.checkDumper(kinds)
 	c.CoverageExtra["kinds"] = len(kinds)
+}
+
+
+func buildC02(c *CheckCtx) {
+	c.Level = "other"
+	c.Technique = "per-production token-conservation contracts over the SSA of every grammar action (yield taken from the real printer's trace), printer helper contracts; composition by the argument of DESIGN Appendix A.1"
+	runs := c.addGram(gramWant{Shape: true, Conserve: true, Linear: true})
+	_ = runs
+	kinds := astKinds(c.W)
+	c.checkPrinter(kinds) // P-order: the layout the conservation obligations use is what every path of the printer emits
+	c.addFunctionUnits(func(con *Contract) bool { return hasProp(con, "C02") })
+	c.Explain = "Proved per run: (G-conserve) every action of both grammars leaves in $$ a value whose printed token sequence equals the concatenation of the token sequences of $1..$n, for every shape the non-terminal contracts allow; (P-order) every printer method emits each slot once in the order the conservation obligations use, helpers pinned; (R-end) rule 1 stores the end token. Not covered by this check: L-tile (the lexer's tokens tile the source: C04), the LR driver (trusted), and the precondition of printer.write at printToken's call sites (no '<?php ' / space insertion), which is a fact about adjacent token pairs."
+	c.assume("W-exact: printer.write appends exactly its argument unless (state is HTML and the chunk is not an open tag) or (last byte and first byte are both identifier bytes); that no two adjacent printed tokens of a parsed tree trigger these is NOT proved (two known counter-examples: a shebang line, '1and')")
+}
+
+func buildC05(c *CheckCtx) {
+	c.Technique = "SMT: for every grammar action and every node it creates or completes, Position == span of the node's own yield (builder semantics read off the trace of the real builder functions; helper functions under WP contracts); non-terminal contracts inferred and re-checked"
+	c.addGram(gramWant{Shape: true, Pos: true})
+	runs := map[string]*gramRun{}
+	_ = runs
+	for _, name := range []string{"php7"} {
+		if gp, err := loadGramParser(c.W, name); err == nil {
+			newGramCtx(c.W, gp).builderObligations(c)
+		}
+	}
+	c.addFunctionUnits(func(con *Contract) bool { return hasProp(con, "C05") })
+	c.assume("nesting and sibling order follow from pos + conserve + token order (DESIGN Appendix A.2), not re-proved per run")
+	c.assume("token positions are what the lexer recorded (C04)")
+}
+
+func buildC07(c *CheckCtx) {
+	c.Level = "other"
+	c.Technique = "sub-sequence form of the token-conservation contracts over every grammar action incl. error productions, linear use of nodes and tokens, no stale $$"
+	c.addGram(gramWant{Shape: true, Sub: true, Linear: true})
+	c.Explain = "Covers the second sentence of C07 (recovery never invents, duplicates or reorders text): every action's result prints a sub-sequence of the tokens of its right-hand side, each token object at most once; error productions and actions that report an error may drop tokens but not add any; an action never returns a stale stack slot. The first sentence (which statements survive recovery) is behaviour of the LALR tables under error recovery and is not decided."
+}
+
+func buildC10(c *CheckCtx) {
+	c.Level = "other"
+	c.Technique = "relational: productions shared by the two grammars are executed symbolically under the same contracts and their results compared; all other productions satisfy the same conserve/pos/leaf/linear contracts"
+	runs := c.addGram(gramWant{Shape: true, Conserve: true, Linear: true, Pos: true, Leaf: true})
+	c.gramPairs(runs)
+	c.Explain = "Covers: (a) every production with identical left- and right-hand side in both grammars builds the same result (kinds, slots, values, position builder and its arguments) on every path; (b) both grammars satisfy the same conservation, position, leaf and linearity contracts, so for any program on which both derive the same structure, tokens, free-floating content and positions coincide. Not decided: that the two LALR tables derive the same structure on the shared syntax."
 }
